@@ -55,6 +55,11 @@ def evalRule : List Case → Int → (Int → Bool) → Int
   | [], d, _ => d
   | c :: cs, d, v => if holds c.pred v then c.target else evalRule cs d v
 
+/-- `rank` orders the predicate inputs so that every alternative lists its predicates in strictly
+increasing rank: the per-alternative orders embed in the one total order given by `rank`. -/
+def OrderedBy (las : List Alt) (rank : Int → Nat) : Prop :=
+  ∀ la ∈ las, (la.preds.map (·.input)).Pairwise fun a b => rank a < rank b
+
 /-! ### `Lookahead.Accepts` and `pickLookahead` -/
 
 /-- `Lookahead.Accepts`: negation flag of the first predicate on `x`, `none` when `ok = false`. -/
